@@ -8,6 +8,7 @@ import (
 	"os"
 	"path/filepath"
 	"sort"
+	"testing/iotest"
 
 	"github.com/ipfs/go-cid"
 	carv2 "github.com/ipld/go-car/v2"
@@ -19,6 +20,8 @@ import (
 //   source kind: 0 *bytes.Reader | 1 Read+Seek only | 2 plain io.Reader | 3 *os.File
 //                | 4 io.ReaderAt through NewReader(..).DataReader()
 //                | 5 *bufio.Reader (16-byte buffer) over a plain reader | 6 *bytes.Buffer
+//                | 7 iotest.DataErrReader | 8 iotest.HalfReader | 9 iotest.OneByteReader (plain streams
+//                  that deliver the last data together with io.EOF / short reads)
 //   5 and 6 are non-seekable streams that ALSO implement io.ByteReader: ToByteReadSeeker still
 //   wraps them in the discarding wrapper (no Seek), so they must behave exactly like kind 2.
 
@@ -52,13 +55,10 @@ const codecInsertion = 0x300003
 
 var idxgenSeq int
 
-func runIdxGenImpl(c *Ctx, kind uint64, o gOpts, file []byte, codec uint64, qs []cid.Cid) (obs Val) {
-	defer func() {
-		if r := recover(); r != nil {
-			obs = VL{VT("err"), VT("PANIC")}
-		}
-	}()
-	var src io.Reader
+// c03Source builds the reader of a source kind over file; cleanup must be called when done.
+// A non-nil errObs means opening the source itself failed (kind 4: NewReader / DataReader).
+func c03Source(c *Ctx, kind uint64, o gOpts, file []byte) (src io.Reader, cleanup func(), errObs Val) {
+	cleanup = func() {}
 	switch kind {
 	case 0:
 		src = bytes.NewReader(file)
@@ -76,22 +76,42 @@ func runIdxGenImpl(c *Ctx, kind uint64, o gOpts, file []byte, codec uint64, qs [
 		if err != nil {
 			panic(err)
 		}
-		defer func() { f.Close(); os.Remove(p) }()
+		cleanup = func() { f.Close(); os.Remove(p) }
 		src = f
+	case 4:
+		rd, err := carv2.NewReader(readerAtOnly{bytes.NewReader(file)}, o.v2()...)
+		if err != nil {
+			return nil, cleanup, VL{VT("err"), verr(err)}
+		}
+		dr, err := rd.DataReader()
+		if err != nil {
+			return nil, cleanup, VL{VT("err"), verr(err)}
+		}
+		src = dr
 	case 5:
 		src = bufio.NewReaderSize(plainReader{bytes.NewReader(file)}, 16)
 	case 6:
 		src = bytes.NewBuffer(append([]byte(nil), file...))
-	case 4:
-		rd, err := carv2.NewReader(readerAtOnly{bytes.NewReader(file)}, o.v2()...)
-		if err != nil {
-			return VL{VT("err"), verr(err)}
+	case 7: // the final data arrive TOGETHER with io.EOF
+		src = iotest.DataErrReader(plainReader{bytes.NewReader(file)})
+	case 8: // every Read delivers half of what was asked for
+		src = iotest.HalfReader(plainReader{bytes.NewReader(file)})
+	case 9: // every Read delivers one byte
+		src = iotest.OneByteReader(plainReader{bytes.NewReader(file)})
+	}
+	return src, cleanup, nil
+}
+
+func runIdxGenImpl(c *Ctx, kind uint64, o gOpts, file []byte, codec uint64, qs []cid.Cid) (obs Val) {
+	defer func() {
+		if r := recover(); r != nil {
+			obs = VL{VT("err"), VT("PANIC")}
 		}
-		dr, err := rd.DataReader()
-		if err != nil {
-			return VL{VT("err"), verr(err)}
-		}
-		src = dr
+	}()
+	src, cleanup, errObs := c03Source(c, kind, o, file)
+	defer cleanup()
+	if errObs != nil {
+		return errObs
 	}
 	if codec == codecInsertion {
 		ii := index.NewInsertionIndex()
